@@ -12,6 +12,7 @@ knobs, faults, schedule.  See DESIGN.md section 3.
 """
 
 import hashlib
+import os
 import threading
 import traceback
 import time as _real_time
@@ -24,6 +25,9 @@ _real_sleep = _real_time.sleep
 _real_monotonic = _real_time.monotonic
 
 INF = float("inf")
+
+
+WALL_TIMEOUTS = [0]     # runs of this process that hit the real-time limit of Sim.run
 
 
 class SimAbort(BaseException):
@@ -530,7 +534,7 @@ class Sim(object):
 
     # -- driving -----------------------------------------------------------
 
-    def run(self, main_fn, wall_timeout=120.0):
+    def run(self, main_fn, wall_timeout=None):
         """Run ``main_fn`` as task 'main' under the scheduler.  Returns the main
         task.  ``self.status`` is one of returned / deadlock / step_cap /
         vtime_cap / wall_timeout."""
@@ -541,21 +545,26 @@ class Sim(object):
             main = self.spawn("main", main_fn, proc="main", is_main=True)
             self.current = main
             main.sem.release()
+            if wall_timeout is None:
+                wall_timeout = float(os.environ.get("TOASTYSIM_WALL_TIMEOUT", "300"))
             if not self.finished.wait(wall_timeout):
+                # a limit in *real* seconds: says something about the load of the machine, nothing about toasty.
+                # The engine re-executes such a run alone and only then judges it.
                 self.status = "wall_timeout"
                 self.frozen = True
-            self._teardown()
+                WALL_TIMEOUTS[0] += 1
+            self._teardown(60.0 if self.status == "wall_timeout" else 5.0)
         finally:
             _tls.sim = None
         return main
 
-    def _teardown(self):
+    def _teardown(self, join_s=5.0):
         self.aborting = True
         for t in self.tasks:
             if t.thread is None:
                 continue
             if t.state != "done" or t.thread.is_alive():
                 t.sem.release()
-                t.thread.join(5.0)
+                t.thread.join(join_s)
                 if t.thread.is_alive():
                     self.leaked += 1
